@@ -238,6 +238,29 @@ def cfg_from_header(name, text, san=SAN, wrap=False):
     return CONFIGS[name]
 
 
+def build_fuzzer(name="fz_io", cfgname="small-fuzz"):
+    """libFuzzer binary: /repo/m4ri/*.c + shim with fuzzer-no-link instrumentation, target src/<name>.cpp"""
+    cfg = CONFIGS[cfgname]
+    with ThreadPoolExecutor(JOBS) as pool:
+        objs = build_lib(cfgname, pool)
+        hflags = HARNESS_FLAGS + ["-fsanitize=address,undefined", "-fno-sanitize-recover=all"]
+        hs = [os.path.join(VERIF, "src", name + ".cpp"), os.path.join(VERIF, "src", "harness.cpp")]
+        futs = [pool.submit(compile_one, CXX, x, hflags, "fz-" + os.path.basename(x)[:-4]) for x in hs]
+        hobjs = [f.result()[0] for f in futs]
+    os.makedirs(BIN, exist_ok=True)
+    h = hashlib.sha256(("\n".join(objs + hobjs)).encode()).hexdigest()[:16]
+    out = os.path.join(BIN, "%s-%s-%s" % (name, cfgname, h))
+    if not os.path.exists(out):
+        cmd = [CXX, "-o", out, "-fsanitize=fuzzer,address,undefined"] + hobjs + objs + ["-lpng", "-lz", "-lm"]
+        r = sh(cmd)
+        if r.returncode != 0:
+            raise RuntimeError("fuzzer link failed:\n" + r.stderr.decode()[-4000:])
+        for f in os.listdir(BIN):
+            if f.startswith("%s-%s-" % (name, cfgname)) and os.path.join(BIN, f) != out:
+                os.remove(os.path.join(BIN, f))
+    return out
+
+
 def gc_objects(max_bytes=6 << 30):
     """Drop least recently used objects when the cache grows too large."""
     if not os.path.isdir(OBJ):
